@@ -1323,6 +1323,10 @@ class Step(Node):
         self.db.executemany("DELETE FROM dynamic_dep WHERE i = ?", ((row[0],) for row in rows))
         self.del_sources([self.graph.node_from_row(i, kind, label) for _, i, label, kind in rows])
 
+        # A step is parked as deferred because of a dynamic input.
+        # With those gone, nothing is left that could wake it up, so the flag goes with them.
+        self.db.execute("UPDATE step SET deferred = FALSE WHERE node = ? AND deferred", (self.i,))
+
         # Drop dynamic environment variables.
         self.db.execute("DELETE FROM env_var WHERE node = ? AND dynamic = 1", (self.i,))
 
